@@ -481,3 +481,20 @@ def r03_10(ctx):
 
     c_type_table(ctx)
     bool_node_classes_declare_bool(ctx)
+    from .c07 import r07_5
+
+    r07_5(ctx)  # immediates: sign by the letter class (#r / #s signed in both cases of the letter, the others unsigned)
+    # a memory load yields a value of the ACCESS type (mem_load_s16 is a signed 16 bit value): widening it extends by that sign
+    idx = get_index(ctx.env)
+    fi = idx.resolve_method("MemLoad", "__init__")
+    ctx.need(fi is not None, "MemLoad.__init__ not found")
+    for signed in (True, False):
+        for w in (8, 16, 32, 64):
+            def once(i, signed=signed, w=w):
+                acc = AObj("MemAccessType", {"val_type": mk_vt("tacc", signed, w), "reads_mem": True, "writes_mem": False}, label="acc")
+                o = AObj("MemLoad", {}, label="node")
+                i.call_function(fi, ["ml", mk_pure("va", mk_vt("tva", False, 32)), acc], self_obj=o)
+                return o.fields.get("value_type")
+            outs = Interp(idx).explore(once)
+            got = sorted({(o.value.fields.get("_signed"), o.value.fields.get("_bit_width")) if o.kind == "return" and isinstance(o.value, AObj) else ("?",) for o in outs})
+            ctx.check(f"MemLoad of access type {'s' if signed else 'u'}{w} is typed {'s' if signed else 'u'}{w}", got == [(signed, w)], str((signed, w)), str(got), fn_where(idx, fi))
